@@ -276,6 +276,75 @@ func raceScenarios() []raceScenario {
 				return err == nil
 			})})
 	}
+	// ticket keys rotated to a list of the SAME length while sessions are resumed: both keys stay
+	// installed throughout ({A,B} <-> {B,A}), so every resumption must succeed, and the key list must
+	// never be read while it is being rewritten
+	for _, gm := range []bool{true, false} {
+		gm := gm
+		name := "same-length-key-rotation-while-resuming/TLS1.2"
+		if gm {
+			name = "same-length-key-rotation-while-resuming/GMSSL"
+		}
+		type world struct {
+			scfg *gmtls.Config
+			ccs  []*gmtls.Config
+		}
+		keyA, keyB := [32]byte{0xa}, [32]byte{0xb}
+		rs = append(rs, raceScenario{name: name, rounds: 4, sameAsSolo: false,
+			setup: func() interface{} {
+				p := tlsk.Get()
+				c, s := gmConfigs()
+				if !gm {
+					s = &gmtls.Config{Certificates: []gmtls.Certificate{p.ECDSA}, Time: tlsk.FixedTime}
+					c = &gmtls.Config{RootCAs: p.StdRootsG, ServerName: tlsk.ServerName, Time: tlsk.FixedTime, MinVersion: 0x0303, MaxVersion: 0x0303}
+				}
+				s.SetSessionTicketKeys([][32]byte{keyA, keyB})
+				w := &world{scfg: s}
+				for i := 0; i < 4; i++ {
+					cc := c.Clone()
+					cc.ClientSessionCache = gmtls.NewLRUClientSessionCache(2)
+					if _, _, err := gmPair(s, cc); err != nil { // full handshake: the cache now holds a ticket under key A
+						panic(err)
+					}
+					w.ccs = append(w.ccs, cc)
+				}
+				return w
+			},
+			bodies: func() []func(interface{}) interface{} {
+				var bs []func(interface{}) interface{}
+				for i := 0; i < 4; i++ {
+					i := i
+					bs = append(bs, func(st interface{}) interface{} {
+						w := st.(*world)
+						for k := 0; k < 6; k++ {
+							cl, _, err := gmPair(w.scfg, w.ccs[i])
+							if err != nil {
+								fmt.Fprintf(os.Stderr, "@@DIFF %s body %d: concurrent %s solo %s\n", name, i, "handshake fails: "+err.Error(), "every connection completes")
+								return false
+							}
+							if !cl.ConnectionState().DidResume {
+								fmt.Fprintf(os.Stderr, "@@DIFF %s body %d: concurrent %s solo %s\n", name, i, "a ticket under a key that is installed throughout was not accepted", "every connection resumes")
+								return false
+							}
+						}
+						return true
+					})
+				}
+				bs = append(bs, func(st interface{}) interface{} {
+					w := st.(*world)
+					for k := 0; k < 200; k++ {
+						if k%2 == 0 {
+							w.scfg.SetSessionTicketKeys([][32]byte{keyB, keyA})
+						} else {
+							w.scfg.SetSessionTicketKeys([][32]byte{keyA, keyB})
+						}
+						time.Sleep(50 * time.Microsecond)
+					}
+					return true
+				})
+				return bs
+			}()})
+	}
 	// a renegotiation (handshake inside Read) while other goroutines write, read the connection state
 	// and close: the scripted reference server asks for two renegotiations in the data phase
 	for _, tlsSuite := range []uint16{gmref.SuiteAESCBC, gmref.SuiteAESGCM} {
